@@ -40,6 +40,7 @@ type Result struct {
 	Scenario       string
 	Schedules      int64
 	Points         int64
+	Steps          int64 // thread resumptions (every Yield / lock acquisition / thread start)
 	MaxPoints      int
 	BoundCompleted int // highest preemption bound fully explored (-1 none)
 	BoundAsked     int
@@ -157,6 +158,7 @@ func (e *explorer) explore(prefix []int) {
 	}
 	ch := chosen(pts)
 	e.res.Schedules++
+	e.res.Steps += run.Clock()
 	e.res.Points += int64(len(pts))
 	if len(pts) > e.res.MaxPoints {
 		e.res.MaxPoints = len(pts)
